@@ -39,16 +39,21 @@ suite!(t_duration, 0, 0, 4, [enc dec delim trunc], Duration); //@ group=b tier=q
 suite!(t_duration_s, 0, 0, 4, [sinks], Duration); //@ group=b tier=thorough
 
 // ---- strings and byte containers
-suite!(t_string1, 0, 1, 8, [enc dec delim trunc sinks], String); //@ group=b tier=quick
-suite!(t_string2, 0, 2, 10, [enc dec delim trunc], String); //@ group=b tier=thorough
-suite!(t_vecu8, 3, 0, 8, [enc dec delim trunc], Vec<u8>); //@ group=b tier=quick
+suite!(t_string1, 0, 1, 8, [enc dec sinks], String); //@ group=b tier=quick
+suite!(t_string1_thorough, 0, 1, 8, [delim], String); //@ group=b tier=thorough
+suite!(t_string1_off, 0, 1, 8, [trunc], String); //@ group=b tier=off
+suite!(t_string2, 0, 2, 10, [enc trunc], String); //@ group=b tier=thorough
+suite!(t_string2_off, 0, 2, 10, [dec delim], String); //@ group=b tier=off
+suite!(t_vecu8, 3, 0, 8, [enc dec delim], Vec<u8>); //@ group=b tier=quick
+suite!(t_vecu8_thorough, 3, 0, 8, [trunc], Vec<u8>); //@ group=b tier=thorough
 suite!(t_vecu8_s, 3, 0, 8, [sinks], Vec<u8>); //@ group=b tier=thorough
 suite!(t_bytes, 3, 0, 8, [enc dec delim trunc], bytes::Bytes); //@ group=b tier=thorough
 suite!(t_bytes_s, 3, 0, 8, [sinks], bytes::Bytes); //@ group=b tier=thorough
 suite!(t_arru8_0, 0, 0, 6, [enc dec delim trunc], [u8; 0]); //@ group=b tier=thorough
 suite!(t_arru8_2, 0, 0, 6, [enc dec delim trunc], [u8; 2]); //@ group=b tier=quick
 suite!(t_arru8_2_s, 0, 0, 6, [sinks], [u8; 2]); //@ group=b tier=thorough
-suite!(t_arru8_17, 0, 0, 20, [enc dec delim trunc], [u8; 17]); //@ group=b tier=quick
+suite!(t_arru8_17, 0, 0, 20, [enc dec delim], [u8; 17]); //@ group=b tier=quick
+suite!(t_arru8_17_thorough, 0, 0, 20, [trunc], [u8; 17]); //@ group=b tier=thorough
 
 // ---- options, results, smart pointers
 suite!(t_opt_u16, 0, 0, 4, [enc dec delim trunc sinks], Option<u16>); //@ group=b tier=quick
@@ -68,34 +73,51 @@ suite!(t_tuple4, 0, 0, 4, [enc dec delim trunc], (u8, u8, u8, u8)); //@ group=b 
 suite!(t_tuple5, 0, 0, 4, [enc dec delim trunc], (u8, i8, u16, i16, u8)); //@ group=b tier=thorough
 suite!(t_tuple6, 0, 0, 4, [enc dec delim trunc], (u8, u8, u8, u8, u8, u8)); //@ group=b tier=thorough
 suite!(t_tuple7, 0, 0, 4, [enc dec delim trunc], (u8, u8, u8, u8, u8, u8, u16)); //@ group=b tier=thorough
-suite!(t_tuple8, 0, 0, 4, [enc dec delim trunc], (u8, u16, u8, u8, bool, u8, u8, i8)); //@ group=b tier=quick
+suite!(t_tuple8, 0, 0, 4, [enc dec delim], (u8, u16, u8, u8, bool, u8, u8, i8)); //@ group=b tier=quick
+suite!(t_tuple8_off, 0, 0, 4, [trunc], (u8, u16, u8, u8, bool, u8, u8, i8)); //@ group=b tier=off
 
 // ---- sequences (element count <= maxv, every count enumerated)
-suite!(t_vec_u16, 2, 0, 6, [enc dec delim trunc sinks], Vec<u16>); //@ group=b tier=quick
-suite!(t_vec_u16_3, 3, 0, 6, [enc dec delim trunc], Vec<u16>); //@ group=b tier=thorough
-suite!(t_list_u16, 2, 0, 6, [enc dec delim trunc], LinkedList<u16>); //@ group=b tier=thorough
+suite!(t_vec_u16, 2, 0, 6, [enc dec delim trunc], Vec<u16>); //@ group=b tier=quick
+suite!(t_vec_u16_thorough, 2, 0, 6, [sinks], Vec<u16>); //@ group=b tier=thorough
+suite!(t_vec_u16_3, 3, 0, 6, [enc dec delim], Vec<u16>); //@ group=b tier=thorough
+suite!(t_vec_u16_3_off, 3, 0, 6, [trunc], Vec<u16>); //@ group=b tier=off
+suite!(t_list_u16, 2, 0, 6, [enc dec delim], LinkedList<u16>); //@ group=b tier=thorough
+suite!(t_list_u16_off, 2, 0, 6, [trunc], LinkedList<u16>); //@ group=b tier=off
 suite!(t_list_u16_s, 2, 0, 6, [sinks], LinkedList<u16>); //@ group=b tier=thorough
-suite!(t_list_u8, 2, 0, 6, [enc dec delim trunc], LinkedList<u8>); //@ group=b tier=thorough
-suite!(t_arr_u16_0, 0, 0, 6, [enc dec delim trunc], [u16; 0]); //@ group=b tier=thorough
-suite!(t_arr_u16_1, 0, 0, 6, [enc dec delim trunc], [u16; 1]); //@ group=b tier=thorough
-suite!(t_arr_u16_3, 0, 0, 6, [enc dec delim trunc], [u16; 3]); //@ group=b tier=quick
+suite!(t_list_u8, 2, 0, 6, [enc dec delim], LinkedList<u8>); //@ group=b tier=thorough
+suite!(t_list_u8_off, 2, 0, 6, [trunc], LinkedList<u8>); //@ group=b tier=off
+suite!(t_arr_u16_0, 0, 0, 6, [enc dec], [u16; 0]); //@ group=b tier=thorough
+suite!(t_arr_u16_0_off, 0, 0, 6, [delim trunc], [u16; 0]); //@ group=b tier=off
+suite!(t_arr_u16_1, 0, 0, 6, [enc dec delim], [u16; 1]); //@ group=b tier=thorough
+suite!(t_arr_u16_1_off, 0, 0, 6, [trunc], [u16; 1]); //@ group=b tier=off
+suite!(t_arr_u16_3, 0, 0, 6, [enc dec delim], [u16; 3]); //@ group=b tier=quick
+suite!(t_arr_u16_3_off, 0, 0, 6, [trunc], [u16; 3]); //@ group=b tier=off
 suite!(t_arr_u16_3_s, 0, 0, 6, [sinks], [u16; 3]); //@ group=b tier=thorough
 
 // ---- nesting: every constructor appears at least once in a non-top position
-suite!(t_opt_vec_pair, 2, 0, 6, [enc dec delim trunc], Option<Vec<(u8, u16)>>); //@ group=b tier=thorough
-suite!(t_vec_opt_arr, 2, 0, 6, [enc dec delim trunc], Vec<Option<[u16; 1]>>); //@ group=b tier=quick
-suite!(t_mixed_tuple, 1, 1, 8, [enc dec delim trunc], (u8, Vec<u16>, Option<String>)); //@ group=b tier=quick
+suite!(t_opt_vec_pair, 2, 0, 6, [enc dec delim], Option<Vec<(u8, u16)>>); //@ group=b tier=thorough
+suite!(t_opt_vec_pair_off, 2, 0, 6, [trunc], Option<Vec<(u8, u16)>>); //@ group=b tier=off
+suite!(t_vec_opt_arr, 2, 0, 6, [enc dec delim], Vec<Option<[u16; 1]>>); //@ group=b tier=thorough
+suite!(t_vec_opt_arr_off, 2, 0, 6, [trunc], Vec<Option<[u16; 1]>>); //@ group=b tier=off
+suite!(t_mixed_tuple, 1, 1, 8, [enc], (u8, Vec<u16>, Option<String>)); //@ group=b tier=thorough
+suite!(t_mixed_tuple_off, 1, 1, 8, [dec delim trunc], (u8, Vec<u16>, Option<String>)); //@ group=b tier=off
 suite!(t_res_box_tuple, 0, 0, 4, [enc dec delim trunc], Result<Box<(u8,)>, u32>); //@ group=b tier=thorough
-suite!(t_vec_vec, 2, 0, 6, [enc dec], Vec<Vec<u8>>); //@ group=b tier=thorough
-suite!(t_vec_string, 2, 1, 8, [enc dec], Vec<String>); //@ group=b tier=thorough
+suite!(t_vec_vec, 2, 0, 6, [enc], Vec<Vec<u8>>); //@ group=b tier=thorough
+suite!(t_vec_vec_off, 2, 0, 6, [dec], Vec<Vec<u8>>); //@ group=b tier=off
+suite!(t_vec_string, 2, 1, 8, [enc], Vec<String>); //@ group=b tier=thorough
+suite!(t_vec_string_off, 2, 1, 8, [dec], Vec<String>); //@ group=b tier=off
 
 // ---- uuid and chrono (full value ranges; validity of calendar fields decided by chrono)
 suite!(t_uuid, 0, 0, 18, [enc dec delim trunc], uuid::Uuid); //@ group=b tier=quick
 suite!(t_weekday, 0, 0, 4, [enc dec delim trunc], chrono::Weekday); //@ group=b tier=quick
 suite!(t_month, 0, 0, 4, [enc dec delim trunc], chrono::Month); //@ group=b tier=thorough
-suite!(t_fixed_offset, 0, 0, 4, [enc dec delim trunc], chrono::FixedOffset); //@ group=b tier=thorough
-suite!(t_datetime_utc, 0, 0, 4, [enc dec delim trunc], chrono::DateTime<chrono::Utc>); //@ group=b tier=quick
+suite!(t_fixed_offset, 0, 0, 4, [enc dec delim], chrono::FixedOffset); //@ group=b tier=thorough
+suite!(t_fixed_offset_off, 0, 0, 4, [trunc], chrono::FixedOffset); //@ group=b tier=off
+suite!(t_datetime_utc, 0, 0, 4, [enc dec delim trunc], chrono::DateTime<chrono::Utc>); //@ group=b tier=off
 suite!(t_naive_date, 0, 0, 4, [enc dec delim trunc], chrono::NaiveDate); //@ group=b tier=quick cap=900
-suite!(t_naive_time, 0, 0, 4, [enc dec delim trunc], chrono::NaiveTime); //@ group=b tier=thorough cap=900
-suite!(t_naive_datetime, 0, 0, 4, [enc dec], chrono::NaiveDateTime); //@ group=b tier=thorough
-suite!(t_datetime_fixed, 0, 0, 4, [enc dec], chrono::DateTime<chrono::FixedOffset>); //@ group=b tier=thorough
+suite!(t_naive_time, 0, 0, 4, [enc dec delim], chrono::NaiveTime); //@ group=b tier=thorough cap=900
+suite!(t_naive_time_off, 0, 0, 4, [trunc], chrono::NaiveTime); //@ group=b tier=off cap=900
+suite!(t_naive_datetime_off, 0, 0, 4, [enc], chrono::NaiveDateTime); //@ group=b tier=off
+suite!(t_naive_datetime, 0, 0, 4, [dec], chrono::NaiveDateTime); //@ group=b tier=thorough
+suite!(t_datetime_fixed_off, 0, 0, 4, [enc], chrono::DateTime<chrono::FixedOffset>); //@ group=b tier=off
+suite!(t_datetime_fixed, 0, 0, 4, [dec], chrono::DateTime<chrono::FixedOffset>); //@ group=b tier=thorough
